@@ -81,6 +81,7 @@ type jobMem struct {
 	Created         map[string]int    `json:"created"`     // job/hash -> pods ever created
 	CreatedName     map[string]bool   `json:"createdName"` // pod names ever created
 	Succeeded       map[string]bool   `json:"succeeded"`   // job/hash -> truly succeeded
+	Maybe           map[string]bool   `json:"maybe"`       // job/hash -> a pod succeeded but disappeared before the success was recorded: the controller may or may not have seen it
 	LastEnd         map[string]int64  `json:"lastEnd"`     // job/hash -> sim seconds when last attempt ended (finished or removed)
 	Ended           map[string]string `json:"ended"`       // pod name -> how it ended: succeeded|failed|removed
 	EditedFin       map[string]bool   `json:"editedFin"`   // job -> user edited/deleted after finish
@@ -109,6 +110,10 @@ func (m jobMem) clone() jobMem {
 	c.Succeeded = map[string]bool{}
 	for k, v := range m.Succeeded {
 		c.Succeeded[k] = v
+	}
+	c.Maybe = map[string]bool{}
+	for k, v := range m.Maybe {
+		c.Maybe[k] = v
 	}
 	c.LastEnd = map[string]int64{}
 	for k, v := range m.LastEnd {
@@ -214,7 +219,7 @@ func newJobWorld(scn JobScenario) *jobWorld {
 		configv1alpha1.JobExecutionConfigName: scn.jobExecutionConfig(),
 	}
 	w := &jobWorld{scn: scn}
-	w.mem = jobMem{Created: map[string]int{}, CreatedName: map[string]bool{}, Succeeded: map[string]bool{},
+	w.mem = jobMem{Created: map[string]int{}, CreatedName: map[string]bool{}, Succeeded: map[string]bool{}, Maybe: map[string]bool{},
 		LastEnd: map[string]int64{}, Ended: map[string]string{}, EditedFin: map[string]bool{}, Deleted: map[string]bool{}, KillPassed: map[string]bool{}}
 	b := mc.NewBase(cfgs, true)
 	w.Base = b
@@ -535,9 +540,10 @@ func (w *jobWorld) envApply(action string) {
 		}
 		w.API.EnvRemove(sim.Pods, key)
 		w.noteRemoved(p)
-		// A pod that succeeded but disappears before its success was recorded in the
-		// Job status is, for every observer, a lost task: the outcome of that attempt
-		// is "lost", not "succeeded".
+		// A pod that succeeded but disappears before its success was recorded in the Job status may or
+		// may not have been seen by a sync (it can sit in the cache, or be in flight on the watch stream,
+		// without a sync happening in between): both readings are legitimate for every observer, so the
+		// outcome of that attempt is ambiguous (neither "succeeded" nor "lost" may be asserted).
 		if p != nil && w.mem.Ended[p.Name] == "succeeded" {
 			recorded := false
 			if rj := w.jobByUID(podJobUID(p)); rj != nil {
@@ -547,19 +553,10 @@ func (w *jobWorld) envApply(action string) {
 					}
 				}
 			}
-			// ... or already delivered to the controller's cache (it may legitimately report it at its next sync)
-			if cp := w.cachedPod(sim.ObjKey(p)); cp != nil && cp.Status.Phase == corev1.PodSucceeded {
-				recorded = true
-			}
-			// ... or still in flight to it: the watch stream is FIFO, the success is delivered before the removal
-			for _, ev := range w.Ctx.Set.Pods.PendingEvents() {
-				if ev.Key == sim.ObjKey(p) && ev.Type != sim.Deleted && ev.Obj.(*corev1.Pod).Status.Phase == corev1.PodSucceeded {
-					recorded = true
-				}
-			}
 			if !recorded {
-				w.mem.Ended[p.Name] = "lost"
+				w.mem.Ended[p.Name] = "maybe-succeeded"
 				delete(w.mem.Succeeded, podJobUID(p)+"/"+podHash(p))
+				w.mem.Maybe[podJobUID(p)+"/"+podHash(p)] = true
 			}
 		}
 	case "u:resync":
@@ -783,14 +780,17 @@ func strategyOf(rj *execution.Job) execution.ParallelCompletionStrategy {
 // simulated kubelet really did: (decidedSuccess, decidedFailure).
 func (w *jobWorld) truth(rj *execution.Job) (bool, bool) {
 	hashes := indexHashes(rj)
-	succ, exhausted := 0, 0
+	succ, maybe, exhausted := 0, 0, 0
 	for _, h := range hashes {
 		id := string(rj.UID) + "/" + h
 		if w.mem.Succeeded[id] {
 			succ++
 			continue
 		}
-		// exhausted: maxAttempts pods created, all ended without success.
+		if w.mem.Maybe[id] {
+			maybe++ // counts as a success for "success implied" and as a non-success for "failure implied"
+		}
+		// exhausted: maxAttempts pods created, all ended without (certain) success.
 		if int64(w.mem.Created[id]) >= refMaxAttempts(rj) {
 			allEnded := true
 			for _, p := range w.podsOf(rj) {
@@ -805,10 +805,20 @@ func (w *jobWorld) truth(rj *execution.Job) (bool, bool) {
 	}
 	switch strategyOf(rj) {
 	case execution.AnySuccessful:
-		return succ > 0, exhausted == len(hashes)
+		return succ+maybe > 0, exhausted == len(hashes)
 	default:
-		return succ == len(hashes), exhausted > 0
+		return succ+maybe == len(hashes), exhausted > 0
 	}
+}
+
+// ambiguous reports whether some index of the Job has an attempt whose success may or may not have been observed.
+func (w *jobWorld) ambiguous(rj *execution.Job) bool {
+	for _, h := range indexHashes(rj) {
+		if w.mem.Maybe[string(rj.UID)+"/"+h] {
+			return true
+		}
+	}
+	return false
 }
 
 func (w *jobWorld) onPodWrite(wr sim.Write) {
@@ -1276,7 +1286,7 @@ func (w *jobWorld) checkState(quiescent bool) {
 		}
 		// C10: converse. Strategy decided by ground truth => job reaches that result.
 		if started && rj.Spec.KillTimestamp == nil && rj.DeletionTimestamp == nil && !future {
-			if _, ae := jobutil.GetAdmissionErrorMessage(rj); !ae {
+			if _, ae := jobutil.GetAdmissionErrorMessage(rj); !ae && !w.ambiguous(rj) {
 				ds, df := w.truth(rj)
 				switch {
 				case ds && alive == 0 && (fin == nil || fin.Result != execution.JobResultSuccess):
